@@ -210,6 +210,16 @@ impl Ctx<'_> {
                     if n >= index_of_user { self.problems.push(format!("{}: {what}: numeric type id {n} does not refer to an EARLIER symbol (user is symbol {index_of_user})", self.file)); }
                     let want = match ast.concrete_type() { Types::Sequence(_) => "SequenceType", Types::Dictionary(_) => "DictionaryType", Types::ResultType(_) => "ResultType", _ => "a named type" };
                     self.eq(&format!("{what} anonymous kind"), kind.as_str(), want);
+                    // ... and the symbol referred to IS this type: its components, recursively, are the components written
+                    if kind.as_str() == want {
+                        let V::Variant(_, _, _, body) = &symbols[n] else { unreachable!() };
+                        match ast.concrete_type() {
+                            Types::Sequence(x) => self.type_ref(&format!("{what} element"), body.f("elementType"), &x.element_type, n, symbols),
+                            Types::Dictionary(x) => { self.type_ref(&format!("{what} key"), body.f("keyType"), &x.key_type, n, symbols); self.type_ref(&format!("{what} value"), body.f("valueType"), &x.value_type, n, symbols); }
+                            Types::ResultType(x) => { self.type_ref(&format!("{what} success"), body.f("successType"), &x.success_type, n, symbols); self.type_ref(&format!("{what} failure"), body.f("failureType"), &x.failure_type, n, symbols); }
+                            _ => {}
+                        }
+                    }
                 }
                 other => self.problems.push(format!("{}: {what}: numeric type id {n} refers to {:?}, not to an anonymous-type symbol", self.file, other.map(|v| match v { V::Variant(_, _, k, _) => k.clone(), _ => "?".into() }))),
             }
@@ -363,8 +373,9 @@ fn check_file(ctx: &mut Ctx, dv: &V, file: &slicec::slice_file::SliceFile) {
 
 const CORPUS: &[(&str, &[(&str, bool)])] = &[
     ("structs, tags, optionals, anonymous types to depth 3", &[("module M\nstruct Z { z: varint62 }\nstruct A { a: bool, tag(0) b: int32?, tag(2147483647) c: Sequence<Dictionary<string, Sequence<Z?>>>?, tag(31) d: bool?, tag(32) e: bool?, tag(63) f: bool?, tag(64) g: bool?, tag(8191) h: bool?, tag(8192) i: string?, tag(16383) j: bool?, tag(536870911) k: bool?, tag(536870912) l: bool? }\ncompact struct B { x: A, y: Result<A, string>, w: Sequence<Dictionary<string, Sequence<Z?>>> }\n", true)]),
-    ("enums: values at the extremes, unchecked, fields, compact", &[("module M\nenum E : int64 { A = -9223372036854775808, B = 9223372036854775807, C = 0 }\nunchecked enum U : uint8 { X, Y = 255 }\nenum V { P, Q(a: bool, tag(3) b: string?), R(c: Sequence<U>) }\ncompact enum W { One(x: int8), Two }\nunchecked enum X { Only }\n", true)]),
+    ("enums: values at the extremes, unchecked, fields, compact", &[("module M\nenum E : int64 { A = -9223372036854775808, B = 9223372036854775807, C = 0 }\nenum F : uint64 { Lo = 0, Mid = 9223372036854775807, Half = 9223372036854775808, Next, Top = 18446744073709551615 }\nenum G : varuint62 { Max = 4611686018427387903 }\nenum H : varint62 { Min = -2305843009213693952, Max = 2305843009213693951 }\nunchecked enum I8 : int8 { Min = -128, Max = 127 }\nunchecked enum U : uint8 { X, Y = 255 }\nenum V { P, Q(a: bool, tag(3) b: string?), R(c: Sequence<U>) }\ncompact enum W { One(x: int8), Two }\nunchecked enum X { Only }\n", true)]),
     ("interfaces: bases, idempotent, streams, return tuples, docs on parameters and return members", &[("module M\ninterface Base { ping() }\ninterface I : Base {\n    /// Does things.\n    /// @param a: the first\n    /// @param b: the second {@link Base}\n    /// @returns r: the result\n    /// @returns s: the other result\n    /// @see Base\n    /// @see Base::ping\n    /// @see I\n    [x::op] idempotent op([p::one] a: bool, [p::two(x)] tag(1) b: string?, c: stream uint8) -> (r: int32, s: stream string)\n    /// @returns: just this\n    single(x: Sequence<bool>) -> string\n    /// @param x: same name as the return member below\n    /// @returns x: the return member called x\n    same(x: bool) -> (x: int32, y: bool)\n}\n", true)]),
+    ("anonymous types nested in their own kind", &[("module M\nstruct N { a: Sequence<Sequence<bool>>, b: Sequence<Sequence<Sequence<string>>>, c: Dictionary<string, Dictionary<int32, Dictionary<bool, uint8>>>, d: Result<Result<bool, string>, Result<int8, Sequence<Sequence<bool>>>>, e: Sequence<bool>, f: Sequence<Sequence<bool>> }\ninterface NI { op(p: Sequence<Sequence<int32>>, q: Sequence<int32>) -> Dictionary<string, Sequence<Sequence<string>>> }\ntypealias NA = Sequence<Dictionary<string, Sequence<NA2>>>\ntypealias NA2 = Sequence<Sequence<uint8>>\n", true)]),
     ("type aliases, custom types, attributes, links in overviews", &[("[[allow(Deprecated)]]\nmodule M::N\n/// An alias of {@link C} to look at.\n[deprecated(\"use \\\"C\\\" instead\")] typealias T = Sequence<C>\n[foo::bar(a, \"b c\")] custom C\n/// Uses {@link T} and then {@link C}, in that order.\nstruct S { [f::first] [f::second(one, two)] t: T, u: [cs::type(\"List\")] Sequence<T> }\n", true)]),
     ("two source files and a reference file referring to each other", &[
         ("module A\nstruct S1 { x: B::S2?, y: R::Shared }\n", true), ("module B\nstruct S2 { y: Sequence<R::Shared> }\ninterface J : R::RI { get() -> A::S1 }\n", true), ("module R\nstruct Shared {}\ninterface RI {}\n", false)]),
